@@ -1,7 +1,190 @@
-import AasVerif.Model.JsonSchemaGen
-namespace AasVerif.Props.C12
-open AasVerif AasVerif.JsonSchema
+import AasVerif.Lemmas.JsonSchemaClass
+/-!
+# C12 — JSON Schema enforces every inferred constraint
 
-theorem placeholder : allO [] = some true := rfl
+Contrapositive readings of the key lemma (`Props.C11.type_lemma`) and of the class-level lemmas:
+a value that breaks a length, pattern or list-size constraint attached to its type annotation, a
+mistyped value, a wrong or missing `modelType`, a missing required property is NOT accepted
+(`¬ Valid`: no amount of fuel makes the validator accept).
+
+Scope proved here: the value level for every type annotation (own class, ancestors and constrained
+primitives are already merged into the constraints the annotation carries — that merge is C15's
+subject), and the object level for the OWN properties of a concrete class without concrete
+descendants.  Planned, not proved: the object level through the `allOf`/`$ref` chain (inherited
+properties, tightening steps, classes with concrete descendants); see `design.d/C12.md`.
+The two exclusions of the statement show up as follows: item-level constraints of an inherited list
+are simply not part of `defineProp` for inherited properties (only the top node is translated);
+byte-array bounds are stated on the base64 text (`base64Len`).
+-/
+namespace AasVerif.Props.C12
+open AasVerif AasVerif.JsonSchema AasVerif.Retree
+
+/-- **`constraint_enforced`, value level.**  A JSON value that does not satisfy the shape or one of
+the inferred constraints of the annotation is not accepted by the schema of the annotation. -/
+theorem constraint_enforced (defs : Defs) (τ : TA) (s : Schema) (h : defineType τ = .ok s) (j : Json)
+    (hbad : ¬ Sat defs τ j) : ¬ Valid defs s j :=
+  fun hv => hbad ((type_lemma defs τ s h j).mp hv)
+
+/-- a string longer than the inferred maximum is rejected -/
+theorem too_long_rejected (defs : Defs) (cs : Cons) (lc : LenC) (m : Int) (s : Schema) (t : Text)
+    (hl : cs.len = some lc) (hm : lc.max = some m) (hlen : m < (t.length : Int))
+    (h : defineType (.prim .str (some cs)) = .ok s) : ¬ Valid defs s (.str t) := by
+  refine constraint_enforced defs _ s h _ ?_
+  rintro ⟨_, hc⟩
+  have := ((hc cs rfl t rfl).1 rfl).1 lc hl
+  have := this.2 m hm
+  simp only [id] at this
+  omega
+
+/-- a string shorter than the inferred minimum is rejected -/
+theorem too_short_rejected (defs : Defs) (cs : Cons) (lc : LenC) (m : Int) (s : Schema) (t : Text)
+    (hl : cs.len = some lc) (hm : lc.min = some m) (hlen : (t.length : Int) < m)
+    (h : defineType (.prim .str (some cs)) = .ok s) : ¬ Valid defs s (.str t) := by
+  refine constraint_enforced defs _ s h _ ?_
+  rintro ⟨_, hc⟩
+  have := ((hc cs rfl t rfl).1 rfl).1 lc hl
+  have := this.1 m hm
+  simp only [id] at this
+  omega
+
+/-- a string missing one of the inferred patterns (searched in its UTF-16 units, after the rewriting
+for UTF-16 engines) is rejected -/
+theorem pattern_miss_rejected (defs : Defs) (cs : Cons) (ps : List Text) (p : Text) (re : Regex)
+    (s : Schema) (t : Text) (hp : cs.pats = some ps) (hmem : p ∈ ps) (hfix : fixPattern p = .ok re)
+    (hmiss : searchB re (Fix16.utf16 t) ≠ .yes)
+    (h : defineType (.prim .str (some cs)) = .ok s) : ¬ Valid defs s (.str t) := by
+  refine constraint_enforced defs _ s h _ ?_
+  rintro ⟨_, hc⟩
+  obtain ⟨re', hre', hyes⟩ := ((hc cs rfl t rfl).1 rfl).2 ps hp p hmem
+  rw [hfix] at hre'
+  cases hre'
+  exact hmiss hyes
+
+/-- a byte array whose base64 text is longer than the base64 length of the inferred maximum is
+rejected (the statement's "what the base64 text length can express") -/
+theorem bytes_too_long_rejected (defs : Defs) (cs : Cons) (lc : LenC) (m : Int) (s : Schema) (t : Text)
+    (hl : cs.len = some lc) (hm : lc.max = some m) (hlen : base64Len m < (t.length : Int))
+    (h : defineType (.prim .bytes (some cs)) = .ok s) : ¬ Valid defs s (.str t) := by
+  refine constraint_enforced defs _ s h _ ?_
+  rintro ⟨_, hc⟩
+  have := ((hc cs rfl t rfl).2 rfl) lc hl
+  have := this.2 m hm
+  omega
+
+/-- a list with more items than the inferred maximum is rejected -/
+theorem list_too_long_rejected (defs : Defs) (items : TA) (cs : Cons) (lc : LenC) (m : Int) (s : Schema)
+    (xs : List Json) (hl : cs.len = some lc) (hm : lc.max = some m) (hlen : m < (xs.length : Int))
+    (h : defineType (.list items (some cs)) = .ok s) : ¬ Valid defs s (.arr xs) := by
+  refine constraint_enforced defs _ s h _ ?_
+  rintro ⟨ys, hys, _, hlenIn⟩
+  cases hys
+  have := (hlenIn lc (by simp [hl])).2 m hm
+  simp only [id] at this
+  omega
+
+/-- a list with fewer items than the inferred minimum is rejected -/
+theorem list_too_short_rejected (defs : Defs) (items : TA) (cs : Cons) (lc : LenC) (m : Int) (s : Schema)
+    (xs : List Json) (hl : cs.len = some lc) (hm : lc.min = some m) (hlen : (xs.length : Int) < m)
+    (h : defineType (.list items (some cs)) = .ok s) : ¬ Valid defs s (.arr xs) := by
+  refine constraint_enforced defs _ s h _ ?_
+  rintro ⟨ys, hys, _, hlenIn⟩
+  cases hys
+  have := (hlenIn lc (by simp [hl])).1 m hm
+  simp only [id] at this
+  omega
+
+/-- a list with an item that breaks the item annotation is rejected -/
+theorem list_item_rejected (defs : Defs) (items : TA) (cs : Option Cons) (s : Schema) (xs : List Json)
+    (x : Json) (hx : x ∈ xs) (hbad : ¬ Sat defs items x)
+    (h : defineType (.list items cs) = .ok s) : ¬ Valid defs s (.arr xs) := by
+  refine constraint_enforced defs _ s h _ ?_
+  rintro ⟨ys, hys, hall, _⟩
+  cases hys
+  exact hbad (hall x hx)
+
+/-- **a mistyped value is rejected**: a value that has not the JSON type of the primitive -/
+theorem mistyped_rejected (defs : Defs) (p : Prim) (cs : Option Cons) (jt : JType) (s : Schema) (j : Json)
+    (hjt : primType p = some jt) (hty : hasType jt j = false)
+    (h : defineType (.prim p cs) = .ok s) : ¬ Valid defs s j := by
+  refine constraint_enforced defs _ s h _ ?_
+  rintro ⟨⟨jt', hjt', hty'⟩, _⟩
+  rw [hjt] at hjt'
+  cases hjt'
+  rw [hty] at hty'
+  cases hty'
+
+/-- …and anything but an array where a list is expected -/
+theorem mistyped_list_rejected (defs : Defs) (items : TA) (cs : Option Cons) (s : Schema) (j : Json)
+    (hj : ∀ xs, j ≠ .arr xs) (h : defineType (.list items cs) = .ok s) : ¬ Valid defs s j := by
+  refine constraint_enforced defs _ s h _ ?_
+  rintro ⟨ys, hys, _⟩
+  exact hj ys hys
+
+/-! ## Object level: a concrete class without concrete descendants -/
+
+/-- **an own property's constraint is enforced**: if the value stored under the JSON name of an own
+property breaks the property's annotation (shape or inferred constraint), the class definition does
+not accept the object. -/
+theorem own_property_enforced (defs : Defs) {c : Cls} {k : Text} {s : Schema}
+    (h : concreteDefinition c = .ok (k, s)) (hleaf : c.cdesc = [])
+    (hnd : (c.props.map (·.name)).Nodup) {p : Prp} (hmem : p ∈ c.props) (hown : p.own = true)
+    (hnm : p.name ≠ modelTypeKey) {sp : Schema} (hd : defineType p.ty = .ok sp)
+    {kvs : List (Text × Json)} {v : Json} (hl : lookup p.name kvs = some v) (hbad : ¬ Sat defs p.ty v) :
+    ¬ Valid defs s (.obj kvs) :=
+  fun hv => hbad (concrete_leaf_own_property defs h hleaf hnd hmem hown hnm hd hv v hl)
+
+/-- **`modelType_required_typed`, wrong value**: an object whose `modelType` is not the string of
+the class's model type (another name, or not a string at all) is rejected. -/
+theorem modelType_wrong_rejected (defs : Defs) {c : Cls} {k : Text} {s : Schema}
+    (h : concreteDefinition c = .ok (k, s)) (hleaf : c.cdesc = []) (hw : c.withModelType = true)
+    {kvs : List (Text × Json)} {v : Json} (hl : lookup modelTypeKey kvs = some v) (hbad : v ≠ .str c.mt) :
+    ¬ Valid defs s (.obj kvs) :=
+  fun hv => hbad (concrete_leaf_modelType_pinned defs h hleaf hw hv v hl)
+
+/-- **`modelType_required_typed`, missing**: when no parent definition requires `modelType`, the
+class definition itself does (the second `fix:` commit; on the pinned tree this was false). -/
+theorem modelType_missing_rejected (defs : Defs) {c : Cls} {k : Text} {s : Schema}
+    (h : concreteDefinition c = .ok (k, s)) (hleaf : c.cdesc = []) (hw : c.withModelType = true)
+    (hnp : c.inh.any (·.withModelType) = false)
+    {kvs : List (Text × Json)} (hmiss : hasKey modelTypeKey kvs = false) : ¬ Valid defs s (.obj kvs) := by
+  intro hv
+  have := concrete_leaf_modelType_required defs h hleaf hw hnp hv
+  rw [hmiss] at this
+  cases this
+
+/-- **a missing required property is rejected** -/
+theorem required_missing_rejected (defs : Defs) {c : Cls} {k : Text} {s : Schema}
+    (h : concreteDefinition c = .ok (k, s)) (hleaf : c.cdesc = [])
+    (hnd : (c.props.map (·.name)).Nodup) {p : Prp} (hmem : p ∈ c.props) (hown : p.own = true)
+    (hreq : p.optional = false) {sp : Schema} (hd : defineType p.ty = .ok sp)
+    {kvs : List (Text × Json)} (hmiss : hasKey p.name kvs = false) : ¬ Valid defs s (.obj kvs) := by
+  intro hv
+  have := concrete_leaf_required defs h hleaf hnd hmem hown hreq hd hv
+  rw [hmiss] at this
+  cases this
+
+/-! ### Non-vacuity -/
+
+/-- `@serialization(with_model_type=True) class Lonely: x: int; name: str  (1 ≤ len(name) ≤ 3)` -/
+def lonely : Cls := ⟨ascii "Lonely", false, true, [],
+  [⟨ascii "x", false, true, .prim .int none, []⟩,
+   ⟨ascii "name", false, true, .prim .str (some ⟨some ⟨some 1, some 3⟩, none⟩), []⟩], []⟩
+
+example : ∃ s, concreteDefinition lonely = .ok (ascii "Lonely", s) ∧
+    lonely.cdesc = [] ∧ (lonely.props.map (·.name)).Nodup ∧ lonely.inh.any (·.withModelType) = false ∧
+    -- the SDK's document is accepted
+    validates [] 6 s (.obj [(ascii "x", .int 3), (ascii "name", .str (ascii "abc")),
+      (modelTypeKey, .str (ascii "Lonely"))]) = some true ∧
+    -- one value breaks maxLength / the type / modelType / a required member
+    validates [] 6 s (.obj [(ascii "x", .int 3), (ascii "name", .str (ascii "abcd")),
+      (modelTypeKey, .str (ascii "Lonely"))]) = some false ∧
+    validates [] 6 s (.obj [(ascii "x", .str (ascii "3")), (ascii "name", .str (ascii "abc")),
+      (modelTypeKey, .str (ascii "Lonely"))]) = some false ∧
+    validates [] 6 s (.obj [(ascii "x", .int 3), (ascii "name", .str (ascii "abc")),
+      (modelTypeKey, .str (ascii "Other"))]) = some false ∧
+    validates [] 6 s (.obj [(ascii "x", .int 3), (ascii "name", .str (ascii "abc"))]) = some false ∧
+    validates [] 6 s (.obj [(ascii "name", .str (ascii "abc")),
+      (modelTypeKey, .str (ascii "Lonely"))]) = some false := by
+  refine ⟨_, rfl, rfl, by decide, by decide, ?_, ?_, ?_, ?_, ?_, ?_⟩ <;> decide
 
 end AasVerif.Props.C12
